@@ -1764,52 +1764,69 @@ end Ex
 /-! ## 10. the stub resolver's alias chasing -/
 
 theorem stubLookup_le (up : Query → Except Err Response) :
-    ∀ (f : Nat) (q : Query) (d : Nat), (stubLookup up f q d).2 ≤ f := by
+    ∀ (f : Nat) (q : Query) (d : Nat) (p : Bool), (stubLookup up f q d p).2 ≤ f := by
   intro f
   induction f with
-  | zero => intro q d; simp [stubLookup]
+  | zero => intro q d p; simp [stubLookup]
   | succ f ih =>
-    intro q d
+    intro q d p
     unfold stubLookup
     split
     · simp
     · simp
     · rename_i target _
-      split
-      · simp
-      · have := ih ⟨target, q.qtype⟩ (d + 1)
-        dsimp only
-        omega
+      have := ih ⟨target, q.qtype⟩ (d + 1) true
+      dsimp only
+      omega
 
 /-- **`stub_alias_chain_le`**: whatever the upstream answers (alias loops included), one stub
 lookup sends at most `MAX_QUERY_DEPTH` (8) upstream queries, i.e. follows at most 7 aliases. -/
 theorem stub_alias_chain_le (up : Query → Except Err Response) (q : Query) :
     (stubResolve up q).2 ≤ MAX_QUERY_DEPTH :=
-  stubLookup_le up _ q 0
+  stubLookup_le up _ q 0 false
+
+theorem stubDecide_alias {found was p : Bool} {d : Nat} {s t : Name}
+    (h : stubDecide found was p d s = .alias t) : depthExhausted d = false := by
+  unfold stubDecide at h
+  split at h
+  · cases h
+  · split at h
+    · rename_i hc
+      simp only [Bool.and_eq_true, Bool.not_eq_true'] at hc
+      exact hc.2
+    · cases h
+
+theorem stubClassify_alias {q : Query} {p : Bool} {d : Nat} {u : Except Err Response} {t : Name}
+    (h : stubClassify q p d u = .alias t) : depthExhausted d = false := by
+  unfold stubClassify at h
+  split at h
+  · cases h
+  · split at h
+    · cases h
+    · exact stubDecide_alias h
 
 /-- the recursion of `inner_lookup` is cut by the `DepthTracker`, never by the model's fuel: with
 `f` = distance to `MAX_QUERY_DEPTH`, more fuel changes nothing -/
 theorem stub_fuel_irrelevant (up : Query → Except Err Response) :
-    ∀ (f : Nat) (q : Query) (d : Nat), d + f = MAX_QUERY_DEPTH → 1 ≤ f →
-      ∀ k, stubLookup up (f + k) q d = stubLookup up f q d := by
+    ∀ (f : Nat) (q : Query) (d : Nat) (p : Bool), d + f = MAX_QUERY_DEPTH → 1 ≤ f →
+      ∀ k, stubLookup up (f + k) q d p = stubLookup up f q d p := by
   intro f
   induction f with
-  | zero => intro q d _ h; omega
+  | zero => intro q d p _ h; omega
   | succ f ih =>
-    intro q d hd _ k
+    intro q d p hd _ k
     have : f + 1 + k = (f + k) + 1 := by omega
     rw [this]
     unfold stubLookup
     split
     · rfl
     · rfl
-    · split
-      · rfl
-      · rename_i hex
-        have hf : 1 ≤ f := by
-          simp only [depthExhausted, decide_eq_true_eq, Nat.not_le] at hex
-          omega
-        rw [ih _ (d + 1) (by omega) hf k]
+    · rename_i target hcl
+      have hex := stubClassify_alias hcl
+      have hf : 1 ≤ f := by
+        simp only [depthExhausted, decide_eq_false_iff_not, Nat.not_le] at hex
+        omega
+      rw [ih _ (d + 1) true (by omega) hf k]
 
 namespace Ex
 /-- an alias loop: every answer is `q CNAME (the other name)` -/
